@@ -62,7 +62,7 @@ CLAIMED = {
          "Machine-checked for the data-path life cycle (start/stop/use, flags, reported state) for all programs and schedules of M1; open/close on identifier change and shutdown are decided by the implementation-side oracles only (partial).",
          "Trusted: as C07; per-stream device pools are disjoint in generated programs; C11's proved HAL automaton for a single device.",
          "DESIGN.md section 5, C08"),
- "C09": ("lean-runtime", "Lean 4 theorems over M1 with a scripted fault per device (any call index, persistent or not): no append after a failed append, no get_frame after a failed get_frame (ghost counters are 0 in every reachable state), failed storage not Running, failed camera stopped by exactly one driver stop, runtime not Running once workers exited, everything at rest when stop/abort/failed start has returned; tie: co-simulation of the real runtime with the mock driver's fault injection against the compiled model (faults at call 0..3, storage and camera, stop/abort/wait, with and without re-configuration incl. the failed-start path), oracles for later fault-free acquisitions",
+ "C09": ("lean-runtime", "Lean 4 theorems over M1 with a scripted fault per device (any call index, persistent or not): no append after a failed append, no get_frame after a failed get_frame (ghost counters are 0 in every reachable state), failed storage not Running, failed camera stopped by exactly one driver stop, runtime not Running once workers exited, everything at rest when stop/abort/failed start has returned; the storage of a failing run holds a gap-free prefix of the camera's frames and a later undisturbed acquisition on the same stream is complete and correct (the data-path invariants carry no 'no camera fault' premise: a map over the write region a failed get_frame left behind is within the channel model's rules); tie: co-simulation of the real runtime with the mock driver's fault injection against the compiled model (faults at call 0..3, storage and camera, stop/abort/wait, with and without re-configuration incl. the failed-start path), oracles for later fault-free acquisitions",
          "Machine-checked for all fault indices, programs and schedules of the model (safety); 'stop and abort still return' by the hang oracle over explored schedules (partial: liveness needs fairness).",
          "Trusted: as C07; faults are scripted for the first run of a device.",
          "DESIGN.md section 5, C09"),
